@@ -5,7 +5,7 @@ use libfuzzer_sys::fuzz_target;
 use vfuzz::*;
 
 fuzz_target!(|data: &[u8]| {
-    let _ = env();
+    begin(data);
     let text = String::from_utf8_lossy(data);
     if text.contains("help") {
         // `--help` calls process::exit(0) from inside the parser, which libFuzzer reports as a crash.
